@@ -600,6 +600,12 @@ impl TwistPoint {
         let y2 = rhs.y;
         let z2 = rhs.z;
 
+        // the formulas below are the mixed addition (rhs affine, Z2 = 1); any other
+        // representation of rhs goes through the general addition
+        if !z2.is_zero() && !z2.eq(&Fp2::one()) {
+            return twist_point_add_full(self, rhs);
+        }
+
         if z1.is_zero() {
             return rhs.clone();
         }
